@@ -27,8 +27,10 @@ def sleep(
 def map(value: float, from_low: float, from_high: float, to_low: float, to_high: float) -> float:
     """Linearly map ``value`` from one range to another."""
 
-    if from_low == from_high:
+    span = from_high - from_low
+    if from_low == from_high or span == 0:
+        # (two huge bounds can differ and still have a zero-width span in floating point)
         raise ValueError("from_low and from_high must be different")
 
-    ratio = (value - from_low) / (from_high - from_low)
+    ratio = (value - from_low) / span
     return to_low + ratio * (to_high - to_low)
